@@ -612,7 +612,7 @@ func experiment(bin, base string, cp crashPoint, idx int) *outcome {
 	switch o.Class {
 	case "both-killed-before-running":
 		// the payload never started and no supervisor is left: "reported as failed rather than left pending"
-		for t0 := time.Now(); st == 0 && time.Since(t0) < 5*time.Second; time.Sleep(250 * time.Millisecond) {
+		for t0 := time.Now(); st == 0 && time.Since(t0) < 15*time.Second; time.Sleep(250 * time.Millisecond) {
 			if m, _, err := statusOf(d, k.ID, 20*time.Second); err == nil && m != nil {
 				st = daemon.Num(m, "State")
 			}
@@ -622,9 +622,11 @@ func experiment(bin, base string, cp crashPoint, idx int) *outcome {
 				k.ID, daemon.Str(ent, "Detail")))
 		}
 	case "acked-not-started":
-		if st == 0 && w.remote {
-			// a remote unit whose submission did not complete is failed at once by Restart; give the record a moment
-			for t0 := time.Now(); st == 0 && time.Since(t0) < 4*time.Second; time.Sleep(250 * time.Millisecond) {
+		if st == 0 {
+			// recovery runs next to the control service: between the registration of the built-in "remote" type and that of
+			// the unit's own work type the unit is listed through a placeholder that shows the stored (Pending) record.
+			// Only a unit that STAYS pending while the node answers is a definite wrong value.
+			for t0 := time.Now(); st == 0 && time.Since(t0) < 15*time.Second; time.Sleep(250 * time.Millisecond) {
 				if m, _, err := statusOf(d, k.ID, 20*time.Second); err == nil && m != nil {
 					st = daemon.Num(m, "State")
 				}
